@@ -334,7 +334,8 @@ func runtimeCross(c *fw.Ctx, fs []*bindfacts.Facts, only *replayCase) error {
 	for _, p := range paths {
 		fmt.Fprintf(&src, "\t%s %q\n", imports[p], p)
 	}
-	src.WriteString(")\n\n" + crossPrelude + "\nfunc main() {\n")
+	src.WriteString("\t\"bytes\"\n\t\"github.com/traefik/yaegi/interp\"\n")
+	src.WriteString(")\n\n" + crossPrelude + "\nfunc main() {\n\texercise()\n")
 	src.Write(rows.Bytes())
 	src.WriteString("\tfmt.Printf(\"DONE %d\\n\", checked)\n}\n")
 	dir, err := os.MkdirTemp(c.Scratch, "cross-rt-")
@@ -392,6 +393,26 @@ func runtimeCross(c *fw.Ctx, fs []*bindfacts.Facts, only *replayCase) error {
 }
 
 const crossPrelude = `var checked int
+
+// exercise: the shipped tables must denote the symbols they are named after whatever the
+// interpreters of the process have done with them. Two interpreters with different streams,
+// environments and arguments load every table and run a script that prints, logs and touches
+// the environment BEFORE the tables are compared with the native symbols.
+func exercise() {
+	for k := 0; k < 2; k++ {
+		var out bytes.Buffer
+		i := interp.New(interp.Options{Stdout: &out, Stderr: &out, Env: []string{fmt.Sprintf("K=%d", k)}, Args: []string{"prog", fmt.Sprint(k)}})
+		for _, t := range []interp.Exports{stdlib.Symbols, ysyscall.Symbols, yunsafe.Symbols, yunrestricted.Symbols} {
+			if err := i.Use(t); err != nil {
+				fmt.Printf("BAD {\"ID\":\"exercise\",\"What\":%q}\n", err.Error())
+			}
+		}
+		_, err := i.Eval("import (\"fmt\"; \"log\"; \"os\")\nfunc run() { fmt.Println(os.Getenv(\"K\"), os.Args); log.Print(\"x\"); os.Setenv(\"Z\", \"1\") }\nrun()")
+		if err != nil {
+			fmt.Printf("BAD {\"ID\":\"exercise\",\"What\":%q}\n", err.Error())
+		}
+	}
+}
 
 var _, _, _, _ = stdlib.Symbols, ysyscall.Symbols, yunrestricted.Symbols, yunsafe.Symbols
 
